@@ -680,7 +680,7 @@ def run_live(ctx, quick):
     global LAST_COMMON
     t0 = time.time()
     variants = VARIANTS(quick)
-    nseeds = 2 if quick else 4
+    nseeds = 2 if quick else 3
     groups = []
     for v in variants:
         for si in range(nseeds):
